@@ -21,7 +21,7 @@ CHECKS = {
             "float-mutated, API-built and one synthesised file per block type x version.", "3/C02"),
     "C03": ("exploration", "runtime monitor: independent header re-labeller + independent parser comparing unknown-block payloads, order and string-table prefix of the saved output",
             "Type-table entries are renamed outside the library (exhaustive subsets for small tables, singletons/full/random otherwise); the output of raw and default saves must keep "
-            "every block at its index with its type name, declared size and payload bytes, and every input string index must still denote the same string.", "3/C03"),
+            "every block at its index with its type name, declared size and payload bytes, and every input string index must still denote the same string; a fifth of the cases is also written to a stream that cannot seek.", "3/C03"),
     "C04": ("exploration", "runtime monitor: graph snapshots (object identity, hook-located reference slots, canonical payloads, child lists) before/after sort, prune, shape-order and default save, compared by a reference model of 'permute and prune only'",
             "Each operation is applied to real, synthesised (every block type x version) and API-built graphs; survivors, pruned blocks, reference targets, child sets and payloads are "
             "compared between the snapshots, sorting twice must be the identity, and the default save must equal explicit Optimize+sort+raw save up to string numbering.", "3/C04"),
@@ -36,7 +36,7 @@ CHECKS = {
     "C07": ("exploration", "runtime monitor: independent header/footer walker + hook trace of the writing save + byte counts consumed by the library's reader, over files written after round trips and random API edits",
             "Every output of every save in the workload is parsed by a reader that shares no code with the library and trusts only the header tables; declared sizes are compared with "
             "what the writer emitted between Block hook events and with what the reader consumes on reload; string-index fields are located through the StringRef hook. "
-            "The workload writes files after plain round trips, second generation, API construction and random edit sequences in all versions.", "3/C07"),
+            "The workload writes files after plain round trips, second generation, API construction and random edit sequences in all versions, a third of them also into streams that already hold data.", "3/C07"),
     "C08": ("exploration", "differential runtime monitoring of two builds (vendored reference snapshot vs working tree): cross-loading of each other's normal forms with per-block byte consumption, byte-identical re-encoding and equality of hook-recorded typed field traces",
             "Both builds synthesise populated instances of all 304 block types x 14 versions through their own readers and write normal forms; each build loads the other's files, must "
             "consume exactly the declared bytes per block, re-encode them byte-identically, and the per-block sequence of (field kind, width, member offset / reference / string) hook "
@@ -70,7 +70,7 @@ CHECKS = {
     "C16": ("fault_enumeration", "fault enumeration under ASan/UBSan/libstdc++ assertions: every/selected truncation offsets of real, synthesised and API-built files, fork-isolated with CPU-time hang detection",
             "The fault model (file ends after k bytes) is enumerated over all offsets of the small samples and over block/field/table boundaries plus a stride of the large ones; each "
             "prefix goes through Load, the query battery, copy, both saves, reload and destruction in a child process whose death (sanitizer abort, signal, assertion, CPU limit) is "
-            "attributed to the journalled fault and phase.", "3/C16"),
+            "attributed to the journalled fault and phase. Prefixes of generated Starfield .mesh files go through LoadExternalShapeData into fresh and already filled mesh slots the same way.", "3/C16"),
     "C17": ("exploration", "runtime monitor: label round-trip oracle (set -> get under the documented renumbering) plus range-partition invariants on the stored segment table, bounded-exhaustive for small meshes and random beyond, incl. vertex deletion and reload",
             "Every label list over {-1,0,1,2} for up to 4 (5) triangles in three segment structures, random segmentations with permuted ids/sub-segments/unassigned labels, and "
             "partition assignments in OB/FO3/SK/SSE are set through the API and read back after set, set(get()), save+reload and vertex deletion; labels must be preserved under the "
